@@ -133,7 +133,7 @@ def main(argv=None):
         return replay_mod.run_replay_file(args.replay, args.repo)
     t0 = time.time()
     tier = "thorough" if args.tier == "thorough" else "quick"
-    seeds = [seed] if tier == "quick" else [seed, seed + 1, seed + 2]
+    seeds = [seed] if tier == "quick" else [seed + k for k in range(5)]
     rlimit = P.get("rlimit", 30)
     units = P["units"]
     runs = []
